@@ -24,7 +24,8 @@ StagesOf(F) == [i \in 1..5 |-> (Order[i] \in F) \/ (Order[i] \in {"v6", "v4"} /\
 \* line kinds: which sensitive items a line carries (concretized by the harness)
 Kinds == {"blank", "spaces", "plain", "plain-tabs", "pwd", "v4", "v6", "v4-mask", "word", "as", "pwd+v4", "word+as", "v4+as",
           "pwd-looks-like-v4", "word-in-pwd-line", "v6+v4", "crowded",
-          "scrubline", "nodigit-pwd", "v4-mask-zeros", "pwd-fixed-quoted", "v6-tail", "pwd-reserved-caps"}
+          "scrubline", "nodigit-pwd", "v4-mask-zeros", "pwd-fixed-quoted", "v6-tail", "pwd-reserved-caps",
+          "keystring-scrub", "standby-keystring", "v6-with-word"}
 ItemsOf(k) ==
   CASE k = "blank" -> << >> [] k = "spaces" -> << >> [] k = "plain" -> <<"p", "p", "p">> [] k = "plain-tabs" -> <<"p", "p">>
     [] k = "pwd" -> <<"p", "pwd">> [] k = "v4" -> <<"p", "p", "v4">> [] k = "v6" -> <<"p", "p", "v6">>
@@ -38,6 +39,9 @@ ItemsOf(k) ==
     [] k = "pwd-fixed-quoted" -> <<"p", "p", "pwd", "p">>                    \* the SAME quoted secret wherever this kind occurs
     [] k = "v6-tail" -> <<"p", "p", "v6">>                                   \* IPv6 with a dotted-quad tail
     [] k = "pwd-reserved-caps" -> <<"p", "p">>                               \* a user reserved word (with capitals) in secret position
+    [] k = "keystring-scrub" -> <<"p", "p", "pwd">>                          \* only a late scrub-mode pattern matches
+    [] k = "standby-keystring" -> <<"p", "p", "p", "p", "p", "p", "pwd", "p", "p">>   \* an early precise pattern AND that scrub pattern match
+    [] k = "v6-with-word" -> <<"p", "v6">>                                   \* a listed word inside the text of an address
 
 Stage(f, items) == [i \in 1..Len(items) |-> IF items[i] = f THEN f \o "!" ELSE items[i]]
 RECURSIVE Apply(_, _, _)
